@@ -282,6 +282,37 @@ pub fn check_updater(w: &mut World, psbt: &Psbt, i: usize, before: &bitcoin::psb
                 if inp.tap_merkle_root.map(|r| r.to_byte_array()) != rt.merkle_root {
                     raise(w, "C14", "I7-tap", format!("Plan::update_psbt_input: tap_merkle_root differs from R4: {}", text), "coord");
                 }
+                // key origins recorded by a plan: only descriptor keys; leaf hashes only of leaves the
+                // key occurs in; a key of a recorded leaf script lists that leaf (BIP371: an empty list
+                // stands for the internal key, so a signer following the list would not sign the leaf)
+                let mut occurs: BTreeMap<[u8; 32], BTreeSet<TapLeafHash>> = BTreeMap::new();
+                for (li, leaf) in tr.leaves().enumerate() {
+                    for pk in leaf.miniscript().iter_pk() {
+                        if let Some(id) = env.by_expr.get(&pk.to_string()) {
+                            occurs.entry(xonly_of(w, *id).serialize()).or_default().insert(TapLeafHash::from_byte_array(rt.leaves[li].leaf_hash));
+                        }
+                    }
+                }
+                let recorded_leaves: BTreeSet<TapLeafHash> = inp.tap_scripts.values().map(|(s, v)| TapLeafHash::from_byte_array(vm::tapleaf_hash(v.to_consensus(), s.as_bytes()))).collect();
+                for (k, (leaves, _)) in &inp.tap_key_origins {
+                    let kb = k.serialize();
+                    let empty = BTreeSet::new();
+                    let occ = occurs.get(&kb).unwrap_or(&empty);
+                    if kb != rt.internal && !occurs.contains_key(&kb) {
+                        raise(w, "C14", "I7-origin", format!("Plan::update_psbt_input lists a key in tap_key_origins that is not in the descriptor: {}", text), "coord");
+                        return;
+                    }
+                    if leaves.iter().any(|l| !occ.contains(l)) {
+                        raise(w, "C14", "I7-origin", format!("Plan::update_psbt_input lists a leaf hash for a key that does not occur in that leaf: {}", text), "coord");
+                        return;
+                    }
+                    // the leaves this plan recorded a script for and in which the key occurs
+                    let needed: Vec<&TapLeafHash> = occ.iter().filter(|l| recorded_leaves.contains(*l)).collect();
+                    if !needed.is_empty() && needed.iter().any(|l| !leaves.contains(l)) {
+                        raise(w, "C14", "I7-origin", format!("Plan::update_psbt_input records leaf script(s) containing a key but lists {} of its {} leaf hashes in tap_key_origins: {}", leaves.len(), needed.len(), text), "coord");
+                        return;
+                    }
+                }
             }
         }
         _ => {
